@@ -9,15 +9,17 @@ import replay_passes
 PLANS = {
     "C17": {
         "pass": "tofunc",
-        "quick": [("meth3", "meth", 3, 14000), ("core3", "core", 3, 2000)],
-        "thorough": [("meth3", "meth", 3, None), ("core3", "core", 3, None), ("methR6", "meth", 6, 60000, 4000)],
+        "quick": [("meth3", "meth", 3, 14000), ("core3", "core", 3, 2000), ("methb3", "methb", 3, 5000)],
+        "thorough": [("meth3", "meth", 3, None), ("core3", "core", 3, None), ("methR6", "meth", 6, 60000, 4000),
+                     ("methb3", "methb", 3, None), ("methb4", "methb", 4, 80000)],
         "clauses": {"Exact", "MethodFormLeft", "Idempotent", "Preserve", "Total"},
     },
     "C19": {
         "pass": "aggregate",
-        "quick": [("agg3", "agg", 3, 8000), ("agg2_3", "agg2", 3, None)],
+        "quick": [("agg3", "agg", 3, 8000), ("agg2_3", "agg2", 3, None), ("aggs3", "aggs", 3, 4000)],
         "thorough": [("agg3", "agg", 3, None), ("agg4", "agg", 4, 150000), ("agg2_3", "agg2", 3, None),
-                     ("agg2_4", "agg2", 4, 100000), ("aggR6", "agg2", 6, 40000, 3000)],
+                     ("agg2_4", "agg2", 4, 100000), ("aggR6", "agg2", 6, 40000, 3000), ("aggs3", "aggs", 3, None),
+                     ("aggs4", "aggs", 4, 60000)],
         "clauses": {"Skeleton", "ShortcutLeft", "FoldValue", "Preserve", "Total"},
     },
     "C15": {
